@@ -24,6 +24,15 @@ impl Apply for CursiveAdjustment<'_> {
         }
 
         let i = iter.index();
+
+        // `attach_chain` is an i16: glyphs more than i16::MAX positions apart cannot be linked
+        // (the cast below would wrap and point at an unrelated glyph), so do not join them.
+        if ctx.buffer.idx - i > i16::MAX as usize {
+            ctx.buffer
+                .unsafe_to_concat_from_outbuffer(Some(i), Some(ctx.buffer.idx + 1));
+            return None;
+        }
+
         let prev = ctx.buffer.info[i].as_glyph();
         let Some(exit_prev) = self
             .coverage
